@@ -14,7 +14,10 @@ signatures: every parameter list assembled from a positional prefix, one slot pe
 tail, at every resolver site, judged by an independent oracle (inspect.Signature.bind over every
 call shape the executor can produce); ONE function object assigned to two or three fields with different
 argument sets (same and different types), under every relative field order and every type order, each
-field judged on its own.  Bad names cover the ASCII cases (`__x`, `1x`, `a-b`, empty), non-ASCII letters /
+field judged on its own; field-level, type-level default and schema-wide default resolvers set together,
+judged by the precedence the executor uses.  The base model contains every container element also WITHOUT
+children of the other kinds (argument-less directives first and last, unimplemented interface, one-value
+enum, one-member union, one-field object and input object).  Bad names cover the ASCII cases (`__x`, `1x`, `a-b`, empty), non-ASCII letters /
 digits in first and later position (Latin-1, full-width digit, superscript, Greek, astral) and a
 trailing line terminator.
 
@@ -131,6 +134,9 @@ def cases(tier):
     rc = X.resolver_cases()
     for lo in range(0, len(rc), 8 * CHUNK):
         yield {"fam": "resolver", "lo": lo, "hi": min(len(rc), lo + 8 * CHUNK)}
+    pc = X.precedence_cases()
+    for lo in range(0, len(pc), 2 * CHUNK):
+        yield {"fam": "resolver-precedence", "lo": lo, "hi": min(len(pc), lo + 2 * CHUNK)}
     sc = X.shared_resolver_cases()
     for lo in range(0, len(sc), 2 * CHUNK):
         yield {"fam": "shared-resolver", "lo": lo, "hi": min(len(sc), lo + 2 * CHUNK)}
@@ -426,6 +432,60 @@ def eval_shared(case, st=None):
     return out
 
 
+def eval_precedence(case, st=None):
+    """
+    Field resolver, type-level default and schema-wide default set together: every field is judged against
+    the resolver the executor will use for it (field, then type default, then schema default) -- a bad
+    type default shadowing a good global one is rejected, a good type default shadowing a bad global one
+    is accepted for that type's fields.
+    """
+    fld, typ, glob = case
+    sm = X.rbase()
+    tag = lambda p, n: None if p is None else "sig:%s#%s" % (p, n)  # noqa: E731
+    q = M.get_type(sm, "Query")
+    q["default_resolver"] = tag(typ, "type")
+    sm["default_resolver"] = tag(glob, "global")
+    for f in q["fields"]:
+        if f["name"] == "req":
+            f["resolver"] = tag(fld, "field")
+    expected = []
+    for t in sm["types"]:
+        if t["kind"] not in ("object", "interface"):
+            continue
+        for f in t["fields"]:
+            eff = (f.get("resolver") or (t.get("default_resolver") if t["kind"] == "object" else None) or sm.get("default_resolver"))
+            if not eff:
+                continue
+            why = _bind_failure(eff[4:].split("#")[0], f.get("args") or [])
+            if why:
+                expected.append("%s.%s" % (t["name"], f["name"]))
+    desc = "rbase with Query.req resolver def f(%s), Query default def f(%s), schema default def f(%s)" % (fld, typ, glob)
+    out = []
+    for order in orders(len(sm["types"])):
+        verdict, msgs = _verdict_code(sm, order, st)
+        if verdict not in ("valid", "invalid"):
+            return [("resolver:%s:precedence" % verdict, "%s: %s" % (desc, msgs))]
+        rmsgs = [m for m in msgs if "esolver" in m]
+        paths = set()
+        for m in rmsgs:
+            paths.update(re.findall(r'on "([A-Za-z_]+\.[A-Za-z_]+)"', m))
+            paths.update(re.findall(r'for "([A-Za-z_]+\.[A-Za-z_]+)"', m))
+        missed = sorted(set(expected) - paths)
+        # introspection types are served by the schema-wide default resolver too and are judged by the library
+        # against it; the model only lists the schema's own types
+        extra = sorted(p for p in paths - set(expected) if not p.startswith("__"))
+        if missed:
+            out.append(("resolver:precedence:missed", "%s (type order %s): no resolver error for %s; reported %s" % (desc, order, missed, sorted(paths))))
+            break
+        if extra:
+            out.append(("resolver:precedence:false-rejection", "%s (type order %s): %s rejected although the resolver in effect binds; expected only %s" % (desc, order, extra, expected)))
+            break
+    if st is not None:
+        st.nt(desc)
+        st.outcome(("precedence", len(expected)))
+    return out
+
+
 # ------------------------------------------------------------------------------------------
 # E2: histories
 
@@ -662,6 +722,10 @@ def check_case(case, st):
         for rc in X.resolver_cases()[case["lo"] : case["hi"]]:
             for cls, detail in eval_resolver(rc, st):
                 out.append((cls, {"fam": "resolver", "case": list(rc)}, detail))
+    elif fam == "resolver-precedence":
+        for c in X.precedence_cases()[case["lo"] : case["hi"]]:
+            for cls, detail in eval_precedence(c, st):
+                out.append((cls, {"fam": "resolver-precedence", "case": c}, detail))
     elif fam == "shared-resolver":
         for sites, params in X.shared_resolver_cases()[case["lo"] : case["hi"]]:
             for cls, detail in eval_shared((sites, params), st):
@@ -691,6 +755,8 @@ def replay(witness):
         return eval_resolver(tuple(witness["case"]))
     if fam == "shared-resolver":
         return eval_shared((witness["sites"], witness["params"]))
+    if fam == "resolver-precedence":
+        return eval_precedence(witness["case"])
     if fam == "history":
         return eval_history(witness["source"], witness["history"])[0]
     raise ValueError(fam)
